@@ -312,6 +312,8 @@ pub fn generate(thorough: bool, r: &mut Rng, em: &mut Emit) {
             let (env, t) = crate::native::types(name).unwrap();
             for k in 0..(2 * scale as u32) {
                 let v = match gen_val(r, &env, &t, 3 + k % 3) { Some(v) => v, None => continue };
+                // the same value twice on one deserializer: the second, native read costs the same whether the first was native or untyped
+                em.case_nt("p.c07.mixed", &[name.replace(' ', "~"), format!("({})", v.sx())], true);
                 let mut ts = vec![t.clone()]; let mut vs = vec![v];
                 let surplus = r.below(3);
                 for _ in 0..surplus { let t2 = gen_type(r, &[], 2, &cfgn); if let Some(v2) = gen_val(r, &env, &t2, 4) { ts.push(t2); vs.push(v2); } }
